@@ -86,7 +86,27 @@ C05 = {
         "the harness extracts signed digit runs and the words 'zero'/'empty' from Unexpected messages mechanically"],
 }
 
+C13 = {
+    "sub": "bridge",
+    "mc": {
+        "quick": [{"module": "MC_bridge", "cfg": "MC_bridge.cfg", "workers": 4}],
+        "thorough": [{"module": "MC_bridge", "cfg": "MC_bridge.cfg", "workers": 4}],
+    },
+    "replay_args": ["replay"],
+    "random_args": {"quick": [["random", "1500", "4"]], "thorough": [["random", "40000", "6"]]},
+    "trace": ("Trace_bridge", "Trace_bridge.cfg"),
+    "shards": {"quick": 8, "thorough": 14},
+    "nontrivial": lambda ev: (ev.get("text") if any(n["t"] == "num" for n in ev.get("nodes", [])) or len(ev.get("nodes", [])) > 1 else None),
+    "rule": "one run per JSON document: TLC enumerates 959 documents of depth <= 2, width <= 2 over number literals at every classification "
+            "boundary (0, 1, 2^53+-1, i64::MAX, 2^63, u64::MAX, u64::MAX+1, -1, i64::MIN, i64::MIN-1, -0, fractions, exponents) and checks kind "
+            "agreement and the round trip on the spec; every document and seeded random documents (depth <= 4/6, deep nests to 80) are parsed by "
+            "serde_json and observed through kind(), into_value(), From<Value> and Deserr for Value; non-trivial = distinct texts containing a number or nesting",
+    "assumptions": ASSUME_COMMON + ["serde_json is trusted as parser and as holder of numbers; how it holds a number is read from Number::to_string (sign / fraction / exponent)",
+                                    "documents whose text serde_json itself refuses (e.g. 1E400) are skipped"],
+}
+
 CHECKS = {
+    "C13": (lambda pid, tier: helpers.run(pid, tier, C13), lambda pid, path: helpers.replay(pid, C13, path)),
     "C05": (lambda pid, tier: helpers.run(pid, tier, C05), lambda pid, path: helpers.replay(pid, C05, path)),
     "C18": (lambda pid, tier: helpers.run(pid, tier, C18), lambda pid, path: helpers.replay(pid, C18, path)),
     "C17": (lambda pid, tier: helpers.run(pid, tier, C17), lambda pid, path: helpers.replay(pid, C17, path)),
